@@ -165,6 +165,56 @@ def plainQuoted (s : Str) : Option Str :=
     | _ => none
   | _ => none
 
+def isHexDigit (c : Byte) : Bool := (digitVal c).any (· < 16)
+def isOctDigit (c : Byte) : Bool := 0x30 ≤ c.toNat && c.toNat ≤ 0x37
+
+/-- The body of a double-quoted literal as strconv.Unquote reads it (ASCII inputs; the parser also
+    refuses NUL bytes and invalid UTF-8): no raw newline, every backslash starts a Go escape. -/
+def goEscapesOk : Nat → List Byte → Bool
+  | 0, _ => false
+  | _, [] => true
+  | f+1, c :: rest =>
+    if c == 0 || c == 0x0a || c == 0x22 then false
+    else if c != 0x5c then goEscapesOk f rest
+    else
+      match rest with
+      | [] => false
+      | e :: r =>
+        if e == 0x61 || e == 0x62 || e == 0x66 || e == 0x6e || e == 0x72 || e == 0x74 || e == 0x76 || e == 0x5c || e == 0x22 then
+          goEscapesOk f r
+        else if e == 0x78 then
+          (match r with
+           | a :: b :: r' => isHexDigit a && isHexDigit b && goEscapesOk f r'
+           | _ => false)
+        else if e == 0x75 then
+          (let ds := r.take 4
+           ds.length == 4 && ds.all isHexDigit &&
+             (match parseDigits 16 ds 0 with
+              | some v => !(0xD800 ≤ v && v < 0xE000)
+              | none => false) && goEscapesOk f (r.drop 4))
+        else if e == 0x55 then
+          (let ds := r.take 8
+           ds.length == 8 && ds.all isHexDigit &&
+             (match parseDigits 16 ds 0 with
+              | some v => v ≤ 0x10FFFF && !(0xD800 ≤ v && v < 0xE000)
+              | none => false) && goEscapesOk f (r.drop 8))
+        else if isOctDigit e then
+          (match r with
+           | a :: b :: r' =>
+             isOctDigit a && isOctDigit b &&
+               ((e.toNat - 0x30) * 64 + (a.toNat - 0x30) * 8 + (b.toNat - 0x30) ≤ 255) && goEscapesOk f r'
+           | _ => false)
+        else false
+
+/-- `strconv.Unquote(lit)` succeeds, and the literal has no NUL byte (readConst's check on string consts). -/
+def goStringLitOk (s : Str) : Bool :=
+  match s with
+  | 0x22 :: rest =>
+    match rest.getLast? with
+    | some 0x22 => rest.length ≥ 1 && goEscapesOk (rest.length + 1) rest.dropLast
+    | _ => false
+  | _ => false
+
 /-- bytes.Trim(s, "\"") -/
 def trimQuotes (s : Str) : Str :=
   ((s.dropWhile (· == 0x22)).reverse.dropWhile (· == 0x22)).reverse
